@@ -242,7 +242,16 @@ static int upipe_zp_set_flow_def(struct upipe *upipe, struct uref *flow_def)
         fps.num = UCLOCK_FREQ;
         fps.den = duration;
         urational_simplify(&fps);
-        UBASE_RETURN(uref_pic_flow_set_fps(upipe_zp->flow_def, fps));
+
+        /* the output flow definition changes: announce it again */
+        struct uref *flow_def_dup = uref_dup(upipe_zp->flow_def);
+        UBASE_ALLOC_RETURN(flow_def_dup);
+        int err = uref_pic_flow_set_fps(flow_def_dup, fps);
+        if (unlikely(!ubase_check(err))) {
+            uref_free(flow_def_dup);
+            return err;
+        }
+        upipe_zp_store_flow_def(upipe, flow_def_dup);
     }
 
     return UBASE_ERR_NONE;
